@@ -776,6 +776,14 @@ pub fn descriptor_models_ctx(u: &Universe, n_seg: usize, n_shwsh: usize, n_leg: 
             wide.push((T::Thresh(k, vec![T::Multi(1, ks(1, 2)), T::Alt(Box::new(T::Multi(1, ks(3, 2)))), spk(5)]), true));
             wide.push((T::Multi(k, ks(1, 3)), true));
         }
+        // four children of mixed kinds (key, key, hash, wrapped lock) in two orders, every k: the
+        // static worst-case selection sorts children by (satisfaction - dissatisfaction) cost
+        let a_ln_older = T::Alt(Box::new(T::OrI(Box::new(T::False), Box::new(T::ZeroNotEqual(Box::new(T::Older(5)))))));
+        for k in 1..=4usize {
+            wide.push((T::Thresh(k, vec![pk(1), spk(2), a_sha.clone(), a_ln_older.clone()]), false));
+            wide.push((T::Thresh(k, vec![pk(1), a_ln_older.clone(), a_sha.clone(), spk(2)]), false));
+            wide.push((T::Thresh(k, vec![pk(1), spk(2), autv_sha.clone(), a_ln_older.clone()]), false));
+        }
         for k in [1usize, 2, 4] {
             wide.push((T::Thresh(k, vec![pk(1), spk(2), spk(3), spk(4)]), false));
             wide.push((T::Multi(k, ks(1, 4)), true));
